@@ -120,6 +120,10 @@ def c08(tier, repo=None):
     two_op = [s for s in shapes if s["nops"] == 2 and len(s["nodes"]) <= P["mc_extra_nodes"]]
     rnd.shuffle(two_op)
     mc_shapes = one_op + two_op[:P["mc_extra"]]
+    # convert functions that panic inside a forwarder goroutine (merge source): model checked on two small trees
+    for name, tree in streams.convert_panic_shapes():
+        if name in ("panic1+pipe", "key(panic2)+array"):
+            mc_shapes.append({"id": "cp-" + name, "nodes": tree, "desc": streams.shape_desc(tree), "nops": 3})
     # array-only copy-then-merge trees (depth 3, no writers: tiny state spaces) are model checked too
     for name, tree in streams.array_alias_shapes():
         if name in ("merge3-copy2", "spare2-copy2-plain", "merge3-copy3-plain"):
@@ -136,6 +140,7 @@ def c08(tier, repo=None):
     log("  %d sequential histories sampled by TLC (StreamsSeq -simulate, %.0fs)" % (len(seqc), srun.wall_s))
     concc = streams.conc_cases(shapes, rnd, P["conc"])
     directed = streams.merge_close_cases(15 if tier == "quick" else 40)
+    directed += streams.convert_panic_cases(rnd, 4 if tier == "quick" else 12)
     directed += streams.array_alias_cases(rnd, 2 if tier == "quick" else 6)
     directed += streams.wide_merge_cases(rnd, 5 if tier == "quick" else 15) + streams.precopy_cases(rnd, 3 if tier == "quick" else 8)
     cases = seqc + directed + concc
